@@ -27,6 +27,8 @@ type Variant struct {
 	Patch  string `json:"patch,omitempty"`
 	Expect string `json:"expect"` // rule id prefix that must fire, or "none" for neutral refactors
 	Note   string `json:"note,omitempty"`
+	// KnownFalseAlarm: a neutral variant on which the checks are known to raise an alarm (documented limit)
+	KnownFalseAlarm string `json:"known_false_alarm,omitempty"`
 }
 
 type variantResult struct {
@@ -63,6 +65,7 @@ func loadVariants(verif string) ([]Variant, error) {
 		var meta struct {
 			Property string `json:"property"`
 			Expect   string `json:"expect"`
+			KFA      string `json:"known_false_alarm"`
 		}
 		json.Unmarshal(data, &meta)
 		dir := filepath.Dir(m)
@@ -70,7 +73,7 @@ func loadVariants(verif string) ([]Variant, error) {
 		if exp == "" {
 			exp = meta.Property
 		}
-		all = append(all, Variant{ID: "seeded/" + filepath.Base(dir), Property: meta.Property, Patch: filepath.Join(dir, "patch.diff"), Expect: exp})
+		all = append(all, Variant{ID: "seeded/" + filepath.Base(dir), Property: meta.Property, Patch: filepath.Join(dir, "patch.diff"), Expect: exp, KnownFalseAlarm: meta.KFA})
 	}
 	return all, nil
 }
@@ -264,7 +267,7 @@ func selftestFor(id, repo, verif string) map[string]any {
 		}(i)
 	}
 	wg.Wait()
-	fired, silent, missed, skipped := 0, 0, 0, 0
+	fired, silent, missed, skipped, knownFA := 0, 0, 0, 0, 0
 	var missedIDs, detail []string
 	for _, r := range results {
 		switch {
@@ -276,11 +279,15 @@ func selftestFor(id, repo, verif string) map[string]any {
 		case r.Pass:
 			fired++
 			detail = append(detail, r.V.ID+": fired "+strings.Join(r.Fired, ","))
+		case r.V.Expect == "none" && r.V.KnownFalseAlarm != "":
+			knownFA++
+			detail = append(detail, r.V.ID+": KNOWN FALSE ALARM of the machinery ("+r.V.KnownFalseAlarm+"): "+strings.Join(r.Fired, ","))
 		default:
 			missed++
 			missedIDs = append(missedIDs, r.V.ID)
 		}
 	}
+	res["known_false_alarms"] = knownFA
 	if missedIDs == nil {
 		missedIDs = []string{}
 	}
